@@ -15,11 +15,13 @@ use radix_engine::system::system_modules::costing::*;
 use radix_engine::transaction::*;
 use radix_engine_interface::blueprints::resource::LiquidFungibleResource;
 use radix_engine_interface::prelude::*;
+use radix_engine_interface::blueprints::package::*;
 use radix_substate_store_impls::memory_db::InMemorySubstateDatabase;
 use radix_transactions::model::*;
 use radix_transactions::prelude::*;
 use scrypto_test::prelude::{LedgerSimulator, LedgerSimulatorBuilder, NoExtension};
 use serde_json::json;
+use std::collections::BTreeMap;
 use vh_common::*;
 
 type Ledger = LedgerSimulator<NoExtension, InMemorySubstateDatabase>;
@@ -60,7 +62,11 @@ fn attos(n: i128) -> Decimal {
 fn tip_exact(p: &CostingParameters, t: &TipSpecifier) -> bool {
     let one = Decimal::ONE.attos();
     let prop = t.proportion().attos();
-    (p.execution_cost_unit_price.attos() * prop) % one == I192::ZERO && (p.finalization_cost_unit_price.attos() * prop) % one == I192::ZERO
+    let ex = |price: Decimal| match price.attos().checked_mul(prop) {
+        Some(x) => x % one == I192::ZERO,
+        None => false, // product does not fit I192: `new` cannot build such a reserve anyway
+    };
+    ex(p.execution_cost_unit_price) && ex(p.finalization_cost_unit_price)
 }
 
 // ------------------------------------------------------------------------------------------------
@@ -391,6 +397,25 @@ fn unit_case(rng: &mut Rng, report: &mut Report, idx: usize) -> String {
 // ------------------------------------------------------------------------------------------------
 // engine level
 // ------------------------------------------------------------------------------------------------
+static ROYALTY_PKG: std::sync::OnceLock<(PackageAddress, Decimal)> = std::sync::OnceLock::new();
+thread_local! { static ROY_CALLS: std::cell::Cell<u64> = std::cell::Cell::new(0); }
+fn roy_calls() -> u64 {
+    if ROYALTY_PKG.get().is_some() { ROY_CALLS.with(|c| c.get()) } else { 0 }
+}
+
+/// Publishes the pre-built `tuple_return` test package (if its build artefacts are present in /repo)
+/// with a package royalty of `amount` XRD on `TupleReturn::instantiate`.
+fn publish_royalty_package(ledger: &mut Ledger, amount: Decimal) -> Option<PackageAddress> {
+    let dir = "/repo/scrypto-test/tests/blueprints/target/wasm32-unknown-unknown/release";
+    let code = std::fs::read(format!("{}/tuple_return.wasm", dir)).ok()?;
+    let rpd = std::fs::read(format!("{}/tuple_return.rpd", dir)).ok()?;
+    let mut definition: PackageDefinition = manifest_decode::<ManifestPackageDefinition>(&rpd).ok()?.try_into_typed().ok()?;
+    let bp = definition.blueprints.get_mut("TupleReturn")?;
+    bp.royalty_config = PackageRoyaltyConfig::Enabled(indexmap!("instantiate".to_string() => RoyaltyAmount::Xrd(amount)));
+    let r = catch(std::panic::AssertUnwindSafe(|| ledger.publish_package((code, definition), BTreeMap::new(), OwnerRole::None)));
+    r.ok()
+}
+
 struct Acct {
     pk: Secp256k1PublicKey,
     sk: Secp256k1PrivateKey,
@@ -442,6 +467,9 @@ fn build_tx(ledger: &mut Ledger, accts: &[Acct], locks: &[Lock], fail: bool, tip
                     for _ in 0..work {
                         m = m.withdraw_from_account(accts[0].addr, XRD, dec!(1)).deposit_entire_worktop(accts[0].addr);
                     }
+                    for _ in 0..roy_calls() {
+                        m = m.call_function(ROYALTY_PKG.get().unwrap().0, "TupleReturn", "instantiate", ());
+                    }
                     if fail {
                         m = m.assert_worktop_contains(XRD, dec!(1));
                     }
@@ -464,6 +492,9 @@ fn build_tx(ledger: &mut Ledger, accts: &[Acct], locks: &[Lock], fail: bool, tip
             }
             for _ in 0..work {
                 m = m.withdraw_from_account(accts[0].addr, XRD, dec!(1)).deposit_entire_worktop(accts[0].addr);
+            }
+            for _ in 0..roy_calls() {
+                m = m.call_function(ROYALTY_PKG.get().unwrap().0, "TupleReturn", "instantiate", ());
             }
             if fail {
                 m = m.assert_worktop_contains(XRD, dec!(1));
@@ -522,6 +553,7 @@ fn engine_case(
     let ex = build_tx(ledger, accts, locks, fail, tip, work);
     let ex = if free.is_positive() { ex.apply_free_credit(free) } else { ex };
     let before: Vec<Decimal> = accts.iter().map(|a| balance(ledger, a)).collect();
+    let roy_before = ROYALTY_PKG.get().and_then(|(pk, _)| ledger.inspect_package_royalty(*pk));
     let cfg = exec_config(p);
     let res = catch(std::panic::AssertUnwindSafe(|| ledger.execute_transaction(ex, cfg)));
     let input = json!({"params": params_coq(p), "tip": tip_coq(tip), "free": free.to_string(), "fail": fail,
@@ -577,6 +609,16 @@ fn engine_case(
     if fd.to_proposer + fd.to_validator_set + fd.to_burn + roy != total {
         fails.push(format!("proposer {} + validator set {} + burn {} + royalties {} != total cost {}", fd.to_proposer, fd.to_validator_set, fd.to_burn, roy, total));
     }
+    if let (Some((pk, amount)), Some(rb)) = (ROYALTY_PKG.get(), roy_before) {
+        let ra = ledger.inspect_package_royalty(*pk).unwrap_or(Decimal::ZERO);
+        let expected = if ok { *amount * Decimal::from(roy_calls()) } else { Decimal::ZERO };
+        if ra - rb != roy || roy != fs.total_royalty_cost_in_xrd || roy != expected {
+            fails.push(format!("royalty vault credited {} but fee_destination says {}, fee_summary {} and the configuration {}", ra - rb, roy, fs.total_royalty_cost_in_xrd, expected));
+        }
+        if roy.is_positive() {
+            report.count("engine_royalty_paid");
+        }
+    }
     if fd.to_proposer.is_negative() || fd.to_validator_set.is_negative() || fd.to_burn.is_negative() {
         fails.push("negative fee destination".into());
     }
@@ -599,7 +641,7 @@ fn engine_case(
     }
     // ---- Coq case ----
     let summary = format!(
-        "(mkSummary {} {} {} {} {} {} {} 0%Z {} [])",
+        "(mkSummary {} {} {} {} {} {} {} 0%Z {} {})",
         coq_z(fs.total_execution_cost_units_consumed),
         coq_z(fs.total_finalization_cost_units_consumed),
         dz(fs.total_execution_cost_in_xrd),
@@ -607,14 +649,20 @@ fn engine_case(
         dz(fs.total_tipping_cost_in_xrd),
         dz(fs.total_storage_cost_in_xrd),
         dz(fs.total_royalty_cost_in_xrd),
-        coq_list(locks.iter().map(|l| format!("({}, {}, {})", coq_z(l.acct), dz(l.amount), coq_bool(l.contingent))))
+        coq_list(locks.iter().map(|l| format!("({}, {}, {})", coq_z(l.acct), dz(l.amount), coq_bool(l.contingent)))),
+        // the reserve's breakdown: what was consumed per recipient (recipient 0 = the royalty package)
+        if fs.total_royalty_cost_in_xrd.is_zero() { "[]".to_string() } else { format!("[(0%Z, {})]", dz(fs.total_royalty_cost_in_xrd)) }
     );
+    let roy_obs = coq_list(fd.to_royalty_recipients.iter().map(|(k, v)| {
+        let is_pkg = matches!(k, RoyaltyRecipient::Package(a, _) if Some(*a) == ROYALTY_PKG.get().map(|x| x.0));
+        format!("({}, {})", coq_z(if is_pkg { 0 } else { 99 }), dz(*v))
+    }));
     let pay = coq_list(commit.fee_source.paying_vaults.iter().map(|(v, a)| {
         let i = accts.iter().position(|x| x.vault == *v).map(|x| x as i64).unwrap_or(-1);
         format!("({}, {})", coq_z(i), dz(*a))
     }));
     let term = format!(
-        "CDist {} {} {} {} {} {} (DObs {} {} {} {} [])",
+        "CDist {} {} {} {} {} {} (DObs {} {} {} {} {})",
         shares_coq(),
         params_coq(p),
         tip_coq(tip),
@@ -624,7 +672,8 @@ fn engine_case(
         pay,
         dz(fd.to_proposer),
         dz(fd.to_validator_set),
-        dz(fd.to_burn)
+        dz(fd.to_burn),
+        roy_obs
     );
     report.case(&term, locks.len() > 1 || !tip_coq(tip).contains("TipNone"));
     Some(term)
@@ -706,6 +755,13 @@ fn main() {
         accts.push(Acct { pk, sk, addr, vault });
     }
     let _ = &accts[0].pk;
+    match publish_royalty_package(&mut ledger, dec!(2)) {
+        Some(pk) => {
+            let _ = ROYALTY_PKG.set((pk, dec!(2)));
+            report.count("royalty_package_published");
+        }
+        None => report.notes.push("royalty package artefacts not found: engine-level royalty cases skipped".into()),
+    }
     let g = CostingParameters::babylon_genesis();
     // the finding witness: price 0.000000050000000001 XRD, tip 1 %
     {
@@ -759,6 +815,7 @@ fn main() {
         };
         let fail = rng.chance(1, 4);
         let work = rng.below(3);
+        ROY_CALLS.with(|c| c.set(if rng.chance(1, 3) { 1 + rng.below(2) } else { 0 }));
         if let Some(t) = engine_case(&mut ledger, &accts, &p, &tip, &locks, free, fail, work, &mut report, idx) {
             cw.push(t);
         }
